@@ -140,7 +140,12 @@ func (m *c20Model) expandEffect(op c20Op) (wantErr string) {
 	v, set := m.get(n)
 	null := !set || v == ""
 	switch op.Val {
-	case "plain", ":-", ":+":
+	case "plain":
+		if !set && m.opts&interp.NoUnset != 0 && n != "@" && n != "*" {
+			return "err" // nounset: an unset parameter is an error
+		}
+		return ""
+	case ":-", ":+":
 		return ""
 	case ":=":
 		if null {
